@@ -92,6 +92,24 @@ def run_files(res, key_prefix, cases, rng, label, limit=600):
             res.violation(f'{key_prefix}-file-raises-{core.exc_name(x)}', f'{label}: {len(order)} windows in a {kind} dump: '
                           f'{x!r} at {core.short_tb(x)}', {'file': data})
             return
+        # the same request consumed lazily, every trace dropped before the next one is asked for (the records die and
+        # their memory is reused while the parse goes on) - what is printed must not depend on what the caller keeps
+        lazy = []
+        try:
+            for t in PyKdebugParser().traces(io.BytesIO(data)):
+                lazy.append(str(t))
+                del t
+        except Exception as x:
+            res.violation(f'{key_prefix}-file-raises-{core.exc_name(x)}', f'{label}: {len(order)} windows in a {kind} dump, '
+                          f'consumed lazily: {x!r} at {core.short_tb(x)}', {'file': data})
+            return
+        if lazy != [str(t) for t in traces]:
+            k = next((i for i, (a, b) in enumerate(zip(lazy, traces)) if a != str(b)), min(len(lazy), len(traces)))
+            res.violation(f'{key_prefix}-depends-on-what-the-caller-keeps', f'{label}: {kind} dump of {len(order)} windows: trace '
+                          f'{k} reads {lazy[k] if k < len(lazy) else None!r} when every trace is dropped before the next is '
+                          f'requested, {str(traces[k]) if k < len(traces) else None!r} when all are kept', {'file': data})
+            return
+        res.count(f'file_traces_consumed_lazily_{kind}', len(lazy))
         got = {}
         k = 0
         for t in traces:
@@ -120,3 +138,167 @@ def traces_via_file(events, kind, rng):
     else:
         data = wire.V3Spec(entries=entries, chunks=gen.split_chunks(rng, records, rng.choice((1, 2, 3)))).build()
     return data, list(PyKdebugParser().traces(io.BytesIO(data)))
+
+
+def run_stretched(res, key_prefix, cases, rng, label, rungs):
+    """Long-running calls: the window of a case is stretched to W records (scale rungs of vlib/histories.py) by records
+    of the same thread that belong to nobody; what the case renders must not change."""
+    startable = [c for c in cases if len(c[0]) >= 2 and c[0][0][1] == H.START]
+    if not startable:
+        return
+    for w in rungs:
+        seq, texts, desc = rng.choice(startable)
+        filler = H.window_filler(rng, max(0, w - len(seq)))
+        where = rng.choice((1, len(seq) - 1))              # right after the START / right before the last record
+        events = H.materialize([(6, a) for a in list(seq[:where]) + filler + list(seq[where:])], t0=5000)
+        own = {id(e) for e in events[:where] + events[where + len(filler):]}
+        parser = ev.new_parser()
+        got = []
+        try:
+            for e in events:
+                t = parser.feed(e)
+                if t is not None and id(t.ktraces[0]) in own:
+                    got.append(str(t))
+        except Exception as x:
+            res.violation(f'{key_prefix}-stretched-raises-{core.exc_name(x)}', f'{label}: {desc} with {len(filler)} more '
+                          f'same-thread records in its window: {x!r} at {core.short_tb(x)}', {'description': desc, 'window': w})
+            return
+        res.count('stretched_windows')
+        res.count('stretched_window_records', len(events))
+        if got != texts:
+            res.violation(f'{key_prefix}-depends-on-window-length', f'{label}: {desc}: rendered {got} when its thread produces '
+                          f'{len(filler)} unrelated records {"after the START" if where == 1 else "before the last record"} '
+                          f'(window of {len(events)}), {texts} without them', {'description': desc, 'window': w})
+            return
+
+
+def run_threads(res, key_prefix, cases, rng, label, n_threads=4, rounds=3):
+    """Several OS threads of one process use the library at the same time, each with its own parser and its own events
+    (nothing is shared by the callers).  The interpreter is asked to switch threads every few bytecodes, so that a
+    module- or class-level scratch value shared behind the callers' backs is overwritten between its write and its
+    read.  Every thread must render what a single-threaded run renders."""
+    import sys
+    import threading
+    if len(cases) < n_threads:
+        return
+    old = sys.getswitchinterval()
+    failures = []
+    barrier = threading.Barrier(n_threads)
+
+    def worker(k, mine):
+        try:
+            barrier.wait(timeout=30)
+            for _ in range(rounds):
+                for seq, texts, desc in mine:
+                    parser = ev.new_parser()
+                    got = []
+                    for e in H.materialize([(6 + k, a) for a in seq], t0=5000):
+                        t = parser.feed(e)
+                        if t is not None:
+                            got.append(str(t))
+                    if got != texts and len(failures) < 5:
+                        failures.append((desc, got, texts))
+        except Exception as x:                                              # noqa
+            if len(failures) < 5:
+                failures.append((f'raised {x!r} at {core.short_tb(x)}', None, None))
+
+    pool = list(cases)
+    rng.shuffle(pool)
+    pool = pool[:400]
+    threads = [threading.Thread(target=worker, args=(k, pool[k::n_threads]), daemon=True) for k in range(n_threads)]
+    sys.setswitchinterval(1e-6)
+    try:
+        for t in threads:
+            t.start()
+        for t in threads:
+            t.join(timeout=300)
+    finally:
+        sys.setswitchinterval(old)
+    if any(t.is_alive() for t in threads):
+        res.inconclusive.append(f'{label}: concurrent threads did not finish within the watchdog')
+        return
+    res.count('windows_rendered_by_concurrent_threads', len(pool) * rounds)
+    if failures:
+        desc, got, texts = failures[0]
+        res.violation(f'{key_prefix}-differs-between-concurrent-threads', f'{label}: {n_threads} OS threads, each with its '
+                      f'own parser: {desc}: rendered {got}, single-threaded {texts} ({len(failures)} such)',
+                      {'description': desc})
+
+
+def run_front_end_sequences(res, key_prefix, cases, rng, label, n=40):
+    """One front-end object serves several dumps in turn.  An earlier dump ends in the middle of a case (its call stays
+    open), the next dump begins with the rest of that case: each request must give what a fresh object gives for the
+    same bytes, under the default table and under an explicitly supplied one (the same table object every time)."""
+    from pykdebugparser.pykdebugparser import PyKdebugParser
+    from pykdebugparser.trace_codes import default_trace_codes
+    cuttable = [c for c in cases if len(c[0]) >= 2]
+    if not cuttable:
+        return
+    table = default_trace_codes()
+    for use_table in (False, True):
+        shared = PyKdebugParser()
+        for _ in range(n):
+            seq, texts, desc = rng.choice(cuttable)
+            other = rng.choice(cases)[0]
+            cut = rng.randrange(1, len(seq))
+            evs = H.materialize([(6, a) for a in seq], t0=5000)
+            tail = H.materialize([(6, a) for a in other], t0=evs[-1].timestamp + 7)
+            entries = [(6, 100, b'proc0', b'')]
+            dumps = []
+            for part in (evs[:cut], evs[cut:] + tail):
+                records = gen.events_to_records(part)
+                dumps.append(wire.v2_file(entries, 8, records) if rng.random() < 0.5 else
+                             wire.V3Spec(entries=entries, chunks=gen.split_chunks(rng, records, rng.choice((1, 2)))).build())
+            for which, data in zip(('the dump that ends inside the call', 'the dump that begins with the rest of the call'),
+                                   dumps):
+                kw = {'trace_codes': table} if use_table else {}
+                try:
+                    fresh = [str(t) for t in PyKdebugParser().traces(io.BytesIO(data), **kw)]
+                    got = [str(t) for t in shared.traces(io.BytesIO(data), **kw)]
+                except Exception as x:
+                    res.violation(f'{key_prefix}-front-end-sequence-raises-{core.exc_name(x)}', f'{label}: {desc}, {which}: '
+                                  f'{x!r} at {core.short_tb(x)}', {'description': desc, 'file': data})
+                    return
+                res.count('front_end_sequence_requests')
+                if got != fresh:
+                    res.violation(f'{key_prefix}-depends-on-earlier-requests', f'{label}: {desc}, {which}: an object that '
+                                  f'served other dumps before renders {got}, a fresh object {fresh} '
+                                  f'({"supplied" if use_table else "default"} table)', {'description': desc, 'file': data})
+                    return
+
+
+def run_all(res, key_prefix, cases, rng, label, ctx):
+    run_stream(res, key_prefix, cases, rng, label)
+    run_files(res, key_prefix, cases, rng, label)
+    rungs = [w for i, w in enumerate(ctx.pick(H.SCALE_RUNGS_QUICK, H.SCALE_RUNGS_THOROUGH)) if ctx.mine(i)]
+    run_stretched(res, key_prefix, cases, rng, label, rungs)
+    run_threads(res, key_prefix, cases, rng, label)
+    run_front_end_sequences(res, key_prefix, cases, rng, label, n=ctx.pick(12, 60))
+    run_relabelled(res, key_prefix, cases, rng, label, n=ctx.pick(200, 2000))
+
+
+def run_relabelled(res, key_prefix, cases, rng, label, n=200):
+    """The same windows under a supplied code table that lists every name under several ids (ev.relabel): the records of
+    one window use different ids of one name; every rendering must read as under the bundled ids."""
+    pool = list(cases)
+    rng.shuffle(pool)
+    for seq, texts, desc in pool[:n]:
+        events = H.materialize([(6, a) for a in seq], t0=5000)
+        try:
+            events2, table = ev.relabel(events, rng)
+            parser = ev.new_parser(codes=table)
+            got = []
+            for e in events2:
+                t = parser.feed(e)
+                if t is not None:
+                    got.append(str(t))
+        except Exception as x:
+            res.violation(f'{key_prefix}-relabelled-raises-{core.exc_name(x)}', f'{label}: {desc} under a table listing names under '
+                          f'several ids: {x!r} at {core.short_tb(x)}', {'description': desc})
+            return
+        res.count('windows_under_a_table_with_names_under_several_ids')
+        if got != texts:
+            res.violation(f'{key_prefix}-depends-on-which-id-of-a-name', f'{label}: {desc}: rendered {got} when the supplied table '
+                          f'lists each name under several ids and the records use any of them, {texts} under the bundled ids',
+                          {'description': desc})
+            return
